@@ -14,7 +14,6 @@ package main
 import (
 	"fmt"
 	"go/constant"
-	"go/token"
 	"go/types"
 	"strings"
 
@@ -65,7 +64,7 @@ func (a *c19Anchors) inline(g *ssa.Function) bool {
 	case a.v10, a.v11, a.rc2, a.artifact:
 		return false
 	}
-	return !token.IsExported(g.Name())
+	return sxHelper(g)
 }
 
 func (a *c19Anchors) paths(fn *ssa.Function) *sxResult { return sxPathsInline(fn, "c19", a.inline) }
